@@ -4,16 +4,20 @@ import base64
 import json
 import os
 
+from hypothesis import given, seed as hseed, strategies as st
+
 from .. import core, impl, pspace
 from ..refsieve import analyze, lex, TABLE, VALID, INVALID, UNSPEC
 from ..gen import tokens as T
+from ..gen import scripts as S
 
 PROP = "C01"
 MOD = __name__
 
 RULE = ("exhaustive token sequences over a %d-token vocabulary (blind to length Lb, viable-prefix-guided "
         "'prefix + one token' to length Lg), Hypothesis grammar-directed valid scripts, their single-edit "
-        "token mutants and layout variants; oracle = independent reference recogniser (VALID/INVALID/UNSPEC) "
+        "token mutants and layout variants, and generated scripts with one near-white-space character (NBSP, NEL, U+2028, "
+        "U+3000, FS..US, BOM, ...) at a token boundary given to parse() both as bytes and as str; oracle = independent reference recogniser (VALID/INVALID/UNSPEC) "
         "plus verdict equality across layouts. A case is non-trivial when the reference consumed >= 3 tokens "
         "before deciding; distinct by source text." % len(T.FULL))
 
@@ -119,10 +123,60 @@ def judge(text, meta, col):
         col.fail(c[0], {"text": text}, c[1])
 
 
+# Characters that some notion of "white space" includes but Sieve's does not
+# (RFC 5228 2.3: SP, HTAB, CRLF).  Python's str patterns take most of them for
+# \s, bytes patterns only FF and VT (which the reference leaves UNSPEC).
+ODD_SPACES = ["\x1c", "\x1d", "\x1e", "\x1f", "\x85", "\xa0", "\u1680", "\u2000", "\u2003", "\u200a", "\u2028",
+              "\u2029", "\u202f", "\u205f", "\u3000", "\ufeff", "\u200b", "\x0b", "\x0c", "\u00ad", "\u0660", "\uff1b"]
+
+
+def sep_worker(arg):
+    """Generated valid scripts with one near-white-space character put at a
+    token boundary, each given to parse() as bytes and as str."""
+    sd, n, depth = arg
+    col = core.Collector()
+
+    @pspace.hyp_settings(n)
+    @hseed(sd)
+    @given(st.data())
+    def body(data):
+        toks = data.draw(S.valid_script(hostile=True, maxdepth=depth, maxcmds=3))
+        i = data.draw(st.integers(0, len(toks)))
+        ch = data.draw(st.sampled_from(ODD_SPACES))
+        mode = data.draw(st.integers(0, 3))
+        mid = [ch, ch + " ", " " + ch, "\r\n" + ch][mode].encode("utf-8")
+        left, right = S.canonical(toks[:i]), S.canonical(toks[i:])
+        text = left + mid + right
+        r = analyze(text)
+        try:
+            astext = text.decode("utf-8")
+        except UnicodeDecodeError:
+            astext = None
+        for form in ("bytes", "str"):
+            if form == "str" and astext is None:
+                continue
+            o = impl.parse_outcome(text if form == "bytes" else astext)
+            sample = None
+            if col.evals % 499 == 0:
+                sample = {"text": text, "form": form, "ref": r.verdict, "impl": o.verdict, "src": "oddspace"}
+            col.case(key=form.encode() + b":" + text, nontrivial=True, classes=["src:oddspace", "form:" + form, "ref:" + r.verdict,
+                                                                 "oddspace:U+%04X" % ord(ch)], sample=sample)
+            c = classify(text, r, o)
+            if c:
+                col.fail(c[0] + ("|input=str" if form == "str" else ""), {"text": text, "form": form}, c[1])
+
+    body()
+    return col
+
+
 def replay(case):
     text = case["text"]
     out = []
     r = analyze(text)
+    if case.get("form") == "str":
+        o = impl.parse_outcome(text.decode("utf-8"))
+        c = classify(text, r, o)
+        return [(c[0] + "|input=str", c[1])] if c else []
     o = impl.parse_outcome(text)
     c = classify(text, r, o)
     if c:
@@ -139,7 +193,7 @@ def replay(case):
 def shrink(case, bucket, budget):
     text = case["text"]
     toks = [t.text + (b"\n" if t.kind == "mls" else b"") for t in lex(text).tokens]
-    if "canonical" in case:
+    if "canonical" in case or case.get("form") == "str":
         return None
 
     def still(ts):
@@ -184,7 +238,9 @@ REQUIRED_CLASSES = ["ref:VALID", "ref:INVALID", "ref:UNSPEC", "src:blind", "src:
 def main(tier, seed, t0):
     selftest()
     col = pspace.run(MOD, tier, seed)
-    missing = [c for c in REQUIRED_CLASSES if not col.classes.get(c)]
+    quick = tier == "quick"
+    col.merge(core.run_shards(sep_worker, [(seed * 1000 + 700 + k, 150 if quick else 2500, 3 if quick else 5) for k in range(16)]))
+    missing = [c for c in REQUIRED_CLASSES + ["src:oddspace", "form:str", "form:bytes"] if not col.classes.get(c)]
     if missing:
         raise core.HarnessError("generator classes empty: %s" % missing)
     b = pspace.BOUNDS[tier]
